@@ -23,3 +23,18 @@ def arr(values, plain_dtype=None):
     for i, v in enumerate(values):
         a[i] = v
     return a
+
+
+def concrete(value):
+    """Realise `value` (CrossHair forks on the realised value, so a bounded domain is still exhausted path by path) and return
+    (value, context manager): inside the context the rest of the harness runs WITHOUT tracing. For harnesses whose inputs go
+    straight into C-level code (numpy typed arrays, SQLite, JSON): after the realisation nothing symbolic is left, and tracing
+    the remaining concrete run only costs time and trips CrossHair's proxies (isinstance on Protocols, memo dicts, dict())."""
+    import contextlib
+
+    if PLAIN:
+        return value, contextlib.nullcontext()
+    from crosshair import deep_realize
+    from crosshair.tracers import NoTracing
+
+    return deep_realize(value), NoTracing()
